@@ -21,6 +21,7 @@ RULE = (
     "whose unpacked length is 2**31 + 4099*(8/nbits), every element compared (index arithmetic beyond the int32 range). "
     "Non-trivial = every case except the empty-array ones"
 )
+SCALE_LANE = 'packed lengths 4097, 65535, 65536, 65537, 84000, 131073, 200003, 1048583 (thorough +16777259) x depth x order x {hashed, saturated runs}, every element compared; thorough: one array per (depth, order) of 2**31 + 4099*(8/nbits) samples'
 ASSUMPTIONS = ["reference = bit-field definition evaluated with Python integers (vf.core.fixtures.ref_pack/ref_unpack)"]
 REQUIRED_OUTCOMES = ["unpack/ok", "pack/ok", "roundtrip/ok", "reject/ok", "file/ok", "long/ok"]
 MAX_WORKERS = 12
